@@ -54,6 +54,7 @@ type conn struct {
 	isDatagram     bool                   // UDP protocol
 	opened         bool                   // connection opened event fired
 	isEOF          bool                   // whether the connection has reached EOF
+	addrsBorrowed  bool                   // local/remote addr were taken over from a net.Conn (Dial/Enroll/Register)
 }
 
 func newStreamConn(proto string, fd int, el *eventloop, sa unix.Sockaddr, localAddr, remoteAddr net.Addr) (c *conn) {
@@ -95,6 +96,12 @@ func (c *conn) release() {
 	c.ctx = nil
 	c.safeCtx.Store(nil)
 	c.buffer = nil
+	if c.addrsBorrowed {
+		// The zone strings of these addresses belong to package net (its zone
+		// cache) or to the caller of Dial/Enroll/Register, they must not be
+		// recycled into the byte slice pool below.
+		c.localAddr, c.remoteAddr = nil, nil
+	}
 	if addr, ok := c.localAddr.(*net.TCPAddr); ok && len(c.loop.listeners) == 0 && len(addr.Zone) > 0 {
 		bsPool.Put(bs.StringToBytes(addr.Zone))
 	}
